@@ -37,6 +37,10 @@ pub struct Fault {
     /// callback that panics (synchronous callbacks only): the stereotype in force when the panic is raised counts
     #[serde(default)]
     pub flip: bool,
+    /// for End: the module shuts itself down (no restart) after the first message it handles, so it is already
+    /// inactive - for a reason other than a panic - when its at_sim_end panics
+    #[serde(default)]
+    pub shutdown_first: bool,
 }
 
 #[derive(Clone, Debug, Serialize, Deserialize)]
@@ -144,6 +148,10 @@ impl Module for R {
             send(Message::default().kind(2).id(id).src([ttl - 1, 0, 0, 0, 0, 0]), "out");
         }
         if hit && after && self.fault_here("handle_message") {}
+        if self.handled == 1 && matches!(&self.fault, Some(Fault { place: Place::End, shutdown_first: true, .. })) {
+            net::log("shutdown", 0, 0);
+            current().shutdown();
+        }
     }
     fn at_sim_end(&mut self) -> Result<(), RuntimeError> {
         if self.dead {
@@ -416,6 +424,9 @@ pub fn run_case(case: &Case) -> Result<(bool, Vec<&'static str>, bool), Failure>
     if faults.iter().flatten().any(|f| f.caught) && !triggered_cb.is_empty() {
         labels.push("catching-stereotype");
     }
+    if real.log.iter().any(|r| r.kind == "shutdown") && triggered_cb.iter().any(|m| matches!(faults[*m].as_ref().map(|f| &f.place), Some(Place::End))) {
+        labels.push("shut-down-module-panics-in-at_sim_end");
+    }
     if case.faults.iter().any(|f| f.flip && !matches!(f.place, Place::Task(_))) {
         labels.push("stereotype-switched-in-the-panicking-callback");
     }
@@ -469,12 +480,13 @@ impl Prop for C13 {
             1 => Just(Place::End),
             2 => (1u8..6).prop_map(Place::Task),
         ];
-        let fault = (0u8..6, place, any::<bool>(), any::<bool>(), proptest::bool::weighted(0.25)).prop_map(|(module, place, caught, after_work, flip)| Fault {
+        let fault = (0u8..6, place, any::<bool>(), any::<bool>(), proptest::bool::weighted(0.25), any::<bool>()).prop_map(|(module, place, caught, after_work, flip, shutdown_first)| Fault {
             module,
             place,
             caught,
             after_work,
             flip,
+            shutdown_first,
         });
         (
             2u8..=6,
@@ -509,7 +521,7 @@ impl Prop for C13 {
                 n: 2,
                 timers: vec![(0, 0, 0)],
                 ticks: vec![1, 0],
-                faults: vec![Fault { module: 0, place: Place::Handle(1), caught: false, after_work: false, flip: false }],
+                faults: vec![Fault { module: 0, place: Place::Handle(1), caught: false, after_work: false, flip: false, shutdown_first: false }],
             },
         )]
     }
